@@ -174,6 +174,19 @@ func init() {
 		}
 		return m.fromTerm(m.ctx.Ite(m.boolTerm(args[0]), m.termOf(args[1]), m.termOf(args[2])), types.Int)
 	})
+	iteK := func(k types.BasicKind) Intrinsic {
+		return func(m *Machine, fr *frame, fn *ssa.Function, args []value) value {
+			if b, ok := args[0].(bool); ok {
+				if b {
+					return args[1]
+				}
+				return args[2]
+			}
+			return m.fromTerm(m.ctx.Ite(m.boolTerm(args[0]), m.termOf(args[1]), m.termOf(args[2])), k)
+		}
+	}
+	reg(vfPkg+".IteByte", iteK(types.Uint8))
+	reg(vfPkg+".IteInt64", iteK(types.Int64))
 	reg(vfPkg+".Eq", func(m *Machine, fr *frame, fn *ssa.Function, args []value) value {
 		// Eq(a, b any) bool: deep symbolic equality of two interface values
 		return m.equals(nil, args[0], args[1])
